@@ -86,6 +86,8 @@ class IndexKernel(Kernel):
         self._set_var(value)
 
     def _set_var(self, value):
+        if not torch.is_tensor(value):
+            value = torch.as_tensor(value).to(self.raw_var)
         self.initialize(raw_var=self.raw_var_constraint.inverse_transform(value))
 
     def _eval_covar_matrix(self):
